@@ -329,6 +329,62 @@ def fam_single(w: World) -> None:
                   f'the wire: {docs_by_notation[0]!r} vs {docs_by_notation[1]!r}', kind='single')
 
 
+def fam_generations(w: World) -> None:
+    """Several generations of client / dispatcher / service objects live one after another in one process: each is
+    used, dropped and collected before the next is built (an application factory per test, a reloaded module, a plugin
+    that is unloaded).  The registered functions of a generation are new objects, registered in a seeded order, so what
+    an earlier generation left behind in process-wide places (the default validator, caches keyed by identity) meets
+    other functions - possibly at the same addresses."""
+    import gc
+    from ..service import BODIES
+    ch = w.ch
+    cfg = _config(w)
+    n_gen = 2 + ch.draw(3, 'generations')
+    w.scenario = {'cfg': cfg, 'generations': []}
+    w.nontrivial = True
+    seed_generators(w)
+    for g in range(n_gen):
+        order = ch.shuffle(sorted(BODIES), 'gen.order')
+        if ch.flag(1, 2, 'gen.subset'):
+            order = order[:max(3, len(order) // 2)]
+        script = [{'pre': cfg['latency'][0], 'post': cfg['latency'][1]}] * 8
+        st = Stack(w, cfg['client_async'], cfg['server_async'], cfg['flavour'],
+                   client_kwargs={'id_gen_impl': ID_GENERATORS[cfg['id_gen']], 'strict': cfg['strict'],
+                                  'error_cls': ERROR_CLASSES[cfg['error_cls']]},
+                   script=script, suffix=f'g{g}', methods=order)
+        calls = []
+        for k in range(1 + ch.draw(4, 'n_calls')):
+            for _ in range(6):
+                c = gen.logical_call(ch, f'g{g}t{k}', exotic=True, allow_single=True)
+                if c.method in order:
+                    break
+            else:
+                continue
+            calls.append(c)
+        _plan_pauses(w, calls)
+        w.scenario['generations'].append({'order': order, 'calls': [c.describe() for c in calls]})
+        for c in calls:
+            notations = SINGLE_NOTIFY_NOTATIONS if c.notification else SINGLE_CALL_NOTATIONS
+            notation = notations[ch.draw(len(notations), 'notation')]
+            ctx = {'notation': notation, 'id_gen': cfg['id_gen'], 'method': c.method, 'kind': 'generations',
+                   'notification': c.notification, 'strict': cfg['strict'], 'generation': g}
+            op = f'generation {g}: {notation}({c.method})'
+            hand_id = ch.choice(gen.REQ_IDS, 'hand_id') if notation == 'send' and not c.notification else None
+            got = _issue_single(st, c, notation, hand_id)
+            if c.notification:
+                if got[0] != 'value' or got[1] is not None:
+                    w.violate('C07.notification', f'{op}: a notification must return None and raise nothing, got '
+                              f'{got[0]} {got[1]!r}', outcome=got[0],
+                              exc=type(got[1]).__name__ if got[0] != 'value' else None, **ctx)
+            else:
+                _check_call_outcome(w, got, c, JsonRpcError, op, ctx)
+        _check_executions(w, st, calls, f'generation {g}', {'kind': 'generations', 'id_gen': cfg['id_gen'], 'generation': g})
+        if w.violations:
+            return
+        del st
+        gc.collect()
+
+
 def fam_batch(w: World) -> None:
     ch = w.ch
     cfg = _config(w)
@@ -585,10 +641,12 @@ def systematic(tier: str):
 
 
 FAMILIES = {'e2e.single': fam_single, 'e2e.batch': fam_batch, 'e2e.concurrent': fam_concurrent,
-            'e2e.batch_reuse': fam_batch_reuse}
+            'e2e.batch_reuse': fam_batch_reuse, 'e2e.generations': fam_generations}
 SYSTEMATIC = {'e2e.single': systematic, 'e2e.batch': systematic}
 PLAN = {
-    'quick': {'e2e.single': 30000, 'e2e.batch': 30000, 'e2e.concurrent': 15000, 'e2e.batch_reuse': 15000},
-    'thorough': {'e2e.single': 20000, 'e2e.batch': 20000, 'e2e.concurrent': 45000, 'e2e.batch_reuse': 45000},
+    'quick': {'e2e.single': 30000, 'e2e.batch': 30000, 'e2e.concurrent': 15000, 'e2e.batch_reuse': 15000,
+              'e2e.generations': 12000},
+    'thorough': {'e2e.single': 20000, 'e2e.batch': 20000, 'e2e.concurrent': 45000, 'e2e.batch_reuse': 45000,
+                 'e2e.generations': 30000},
 }
 THOROUGH_BUDGET_S = 600
